@@ -38,7 +38,7 @@ RULE = ("each run draws a body length (dense around 0, 1, 2^14+-2, 2^15, 2^16+-2
         "sizes and ciphertext cuts, and serves it over BOTH TLS backends. distinct = distinct "
         "(length, reader, buffer, cut-signature); non-trivial = body >= 1 byte and the reader or "
         "the network was not the default")
-PROBES = ["backpressure_pause_writing", "body_ge_16k", "body_ge_64k", "body_ge_6MiB", "half_closing_reader", "nauyaca_client_as_reader", "slow_reader", "bursty_reader",
+PROBES = ["file_with_byte_order_mark", "status_21_to_29", "backpressure_pause_writing", "body_ge_16k", "body_ge_64k", "body_ge_6MiB", "half_closing_reader", "nauyaca_client_as_reader", "slow_reader", "bursty_reader",
           "ciphertext_cut", "static_file", "start_server", "very_slow_reader_over_30s"]
 COMPONENTS = {
     "real": ["nauyaca.server.protocol._send_response", "nauyaca.server.tls_protocol (TLS pump)",
@@ -118,7 +118,7 @@ def serve_once(ch, backend, cfg, scratch):
                 url = f"gemini://{HOST}/f.gmi"
             else:
                 def handler(req):
-                    r = GeminiResponse(status=20, meta=mime, body=body_obj)
+                    r = GeminiResponse(status=cfg["status"], meta=mime, body=body_obj)
                     captured["resp"] = r
                     if cfg["async_handler"]:
                         async def later():
@@ -211,6 +211,12 @@ def run_one(ch):
     if source != "handler":
         # static files are read as UTF-8 text: use LF-only text content
         s = ("€uro line\n" * (n // 11 + 1)).encode()[:n].decode("utf-8", "ignore")
+        mark = ch.choose("bom", 4, [8, 1, 1, 0])
+        if mark and n >= 3:
+            # a file that starts with (or merely contains) U+FEFF: served as it is on disk
+            s = ("\ufeff" + s[1:]) if mark == 1 else (s[:1] + "\ufeff" + s[2:])
+            s = s.encode()[:n].decode("utf-8", "ignore")
+            res.stats["file_with_byte_order_mark"] += 1
         body = (s, s.encode(), "text/gemini" if source == "static" else "text/plain")
         n = len(body[1])
     reader = ch.pick("reader", ["eager", "slow", "bursty", "client"], [5, 3, 2, 1])
@@ -222,6 +228,7 @@ def run_one(ch):
            "s2c_mode": ch.choose("s2cmode", 2, [3, 2]),
            "async_handler": bool(ch.choose("async", 2)),
            "cap_slack": ch.pick("capslack", [0, 1, 30, 5000]),
+           "status": ch.pick("status", [20, 21, 25, 29], [12, 1, 1, 1]) if source == "handler" else 20,
            "deadline": 60.0}
     # the link itself (cap bytes per ~3 ms round) must not be what makes the transfer
     # take longer than asyncio's 30 s TLS shutdown timer (that is the slow-reader
@@ -256,7 +263,7 @@ def run_one(ch):
     for backend in ("stdlib", "pyopenssl"):
         outs[backend] = serve_once(ch, backend, cfg, fresh_dir("c06"))
 
-    ctx = dict(body_len=n, source=source, reader=reader, cap_s2c=cap, body_type=type(body[0]).__name__,
+    ctx = dict(body_len=n, status=cfg["status"], source=source, reader=reader, cap_s2c=cap, body_type=type(body[0]).__name__,
                read_rate=cfg.get("read_rate"), pause_until=cfg.get("pause_until"),
                very_slow=very_slow)
     for backend, o in outs.items():
@@ -265,6 +272,12 @@ def run_one(ch):
             res.violate(f"C06/no-response/{backend}", "handler was never invoked", **ctx)
             continue
         exp = sw.expected_wire(resp)
+        if source == "static" and exp.split(b"\r\n", 1)[-1] != body[1] and exp[:2] == b"20":
+            # the file server is the handler here: what it hands over must be the file
+            res.violate(f"C06/altered/static-file-differs-from-disk/{backend}",
+                        f"StaticFileHandler produced {len(exp.split(b'\r\n', 1)[-1])} body bytes for a "
+                        f"file of {len(body[1])} bytes", head=exp[:60], file_head=body[1][:40], **ctx)
+            continue
         rx = o["rx"]
         key_extra = "/reader-slower-than-30s" if very_slow else ""
         if rx != exp:
@@ -299,6 +312,8 @@ def run_one(ch):
         res.stats["very_slow_reader_over_30s"] += 1
     if cfg["s2c_mode"]:
         res.stats["ciphertext_cut"] += 1
+    if cfg["status"] != 20:
+        res.stats["status_21_to_29"] += 1
     if source == "static":
         res.stats["static_file"] += 1
     if source == "start_server":
